@@ -252,12 +252,37 @@ func runC16(c *Ctx) {
 		for _, t := range []string{"credit-note", "corrective", "debit-note", "zz-undefined"} {
 			for _, reason := range []string{"", "corrected by verif"} {
 				for _, ext := range exts {
-					o := c16opts{Type: t, Reason: reason, Ext: ext}
-					if len(s.stamps) > 0 && rng.IntN(2) == 0 {
+					base := c16opts{Type: t, Reason: reason, Ext: ext}
+					withStamps := func(o c16opts) c16opts {
 						// the caller supplies the stamps again, with other values
 						for prov := range s.stamps {
 							o.Stamps = append(o.Stamps, map[string]string{"prv": prov, "val": "OPTION-" + prov})
 						}
+						return o
+					}
+					if c.Thorough {
+						// the full cross product of the remaining options
+						for m := 0; m < 8; m++ {
+							o := base
+							if m&1 != 0 {
+								o.Series = "CR"
+							}
+							if m&2 != 0 {
+								o.IssueDate = "2031-03-04"
+							}
+							if m&4 != 0 {
+								o.CopyTax = true
+							}
+							jobs = append(jobs, job{s, o})
+							if len(s.stamps) > 0 {
+								jobs = append(jobs, job{s, withStamps(o)})
+							}
+						}
+						continue
+					}
+					o := base
+					if len(s.stamps) > 0 && rng.IntN(2) == 0 {
+						o = withStamps(o)
 					}
 					switch rng.IntN(4) {
 					case 0:
